@@ -301,6 +301,8 @@ def impl_request(d, req):
         return [[float(v) for v in np.asarray(c).flatten()] for c in r]
     except ImplExit as e:
         return ("error", err_code(str(e)))
+    except Exception as e:          # an unhandled exception is an outcome of its own
+        return ("exception", type(e).__name__)
 
 
 # ------------------------------------------------------------------------------------------------
